@@ -120,7 +120,7 @@ func ruleRequestTuples(c *Ctx, rule string) {
 				if i == 0 || !isPtrToNamed(a.Type(), ft) {
 					continue
 				}
-				c.Anchor(rule, fname(fn)+"→"+cal.Name())
+				c.AnchorUp(rule, fn, "→"+cal.Name())
 				if ok, why := w.requestTuple(a, fn); ok {
 					c.OK(rule, fname(fn), cal.Name()+" tuple", w.instrPos(in), why)
 				} else {
@@ -503,7 +503,7 @@ func ruleAllocSources(c *Ctx, rule string) {
 				call, _ := callOf(root)
 				label := "alloc " + shortVal(v)
 				if call != nil && allowed[call.Call.StaticCallee()] {
-					c.Anchor(rule, fname(fn))
+					c.AnchorUp(rule, fn, "")
 					c.OK(rule, fname(fn), label, w.instrPos(in), "from "+call.Call.StaticCallee().Name())
 					continue
 				}
